@@ -1,0 +1,200 @@
+//go:build verif
+
+package fasthttp
+
+// C22, header bookkeeping of response compression. Checked by /verif/gocv (comment-only; compiled to nothing).
+//
+// Each xxxBody compresses at most once, only when no Content-Encoding is set yet, declares exactly the encoding it
+// applied (and only when it applied one) and adds `Vary: Accept-Encoding`; the CompressHandler wrappers apply only an
+// encoding the request accepts. That the compressed bytes decode back to the body is a property of the external
+// codecs and is not decided.
+
+//@ func Response.gzipBody
+//@   property C22
+//@   mode skeleton
+//@   ghost had int = -1
+//@   ghost compressed int = 0
+//@   ghost declared bool = false
+//@   ghost declaredRight bool = false
+//@   ghost vary bool = false
+//@   on call ResponseHeader.ContentEncoding -> e:
+//@     nohavoc
+//@     effect had = len(e)
+//@   on call ResponseHeader.isCompressibleContentType -> ok:
+//@     nohavoc
+//@   on call ResponseHeader.SetContentLength:
+//@     nohavoc
+//@   on call Response.bodyBytes -> b:
+//@     nohavoc
+//@   on call newCompressedBodyStream -> s:
+//@     nohavoc
+//@     requires[not-compressed-twice] had == 0
+//@     effect compressed = compressed + 1
+//@   on call AppendGzipBytesLevel -> out:
+//@     nohavoc
+//@     requires[not-compressed-twice] had == 0
+//@     effect compressed = compressed + 1
+//@   on call ResponseHeader.SetContentEncodingBytes(_, enc):
+//@     nohavoc
+//@     requires[declares-what-it-did] compressed == 1
+//@     effect declared = true; declaredRight = sameSlice(enc, strGzip)
+//@   on call ResponseHeader.addVaryBytes(_, v):
+//@     nohavoc
+//@     effect vary = vary || sameSlice(v, strAcceptEncoding)
+//@   end
+//@   ensures[at-most-once] compressed <= 1
+//@   ensures[encoding-declared-iff-compressed] declared == (compressed == 1) && (declared ==> declaredRight)
+//@   ensures[vary-when-compressed] compressed == 1 ==> vary
+
+//@ func Response.deflateBody
+//@   property C22
+//@   mode skeleton
+//@   ghost had int = -1
+//@   ghost compressed int = 0
+//@   ghost declared bool = false
+//@   ghost declaredRight bool = false
+//@   ghost vary bool = false
+//@   on call ResponseHeader.ContentEncoding -> e:
+//@     nohavoc
+//@     effect had = len(e)
+//@   on call ResponseHeader.isCompressibleContentType -> ok:
+//@     nohavoc
+//@   on call ResponseHeader.SetContentLength:
+//@     nohavoc
+//@   on call Response.bodyBytes -> b:
+//@     nohavoc
+//@   on call newCompressedBodyStream -> s:
+//@     nohavoc
+//@     requires[not-compressed-twice] had == 0
+//@     effect compressed = compressed + 1
+//@   on call AppendDeflateBytesLevel -> out:
+//@     nohavoc
+//@     requires[not-compressed-twice] had == 0
+//@     effect compressed = compressed + 1
+//@   on call ResponseHeader.SetContentEncodingBytes(_, enc):
+//@     nohavoc
+//@     requires[declares-what-it-did] compressed == 1
+//@     effect declared = true; declaredRight = sameSlice(enc, strDeflate)
+//@   on call ResponseHeader.addVaryBytes(_, v):
+//@     nohavoc
+//@     effect vary = vary || sameSlice(v, strAcceptEncoding)
+//@   end
+//@   ensures[at-most-once] compressed <= 1
+//@   ensures[encoding-declared-iff-compressed] declared == (compressed == 1) && (declared ==> declaredRight)
+//@   ensures[vary-when-compressed] compressed == 1 ==> vary
+
+//@ func Response.brotliBody
+//@   property C22
+//@   mode skeleton
+//@   ghost had int = -1
+//@   ghost compressed int = 0
+//@   ghost declared bool = false
+//@   ghost declaredRight bool = false
+//@   ghost vary bool = false
+//@   on call ResponseHeader.ContentEncoding -> e:
+//@     nohavoc
+//@     effect had = len(e)
+//@   on call ResponseHeader.isCompressibleContentType -> ok:
+//@     nohavoc
+//@   on call ResponseHeader.SetContentLength:
+//@     nohavoc
+//@   on call Response.bodyBytes -> b:
+//@     nohavoc
+//@   on call newCompressedBodyStream -> s:
+//@     nohavoc
+//@     requires[not-compressed-twice] had == 0
+//@     effect compressed = compressed + 1
+//@   on call AppendBrotliBytesLevel -> out:
+//@     nohavoc
+//@     requires[not-compressed-twice] had == 0
+//@     effect compressed = compressed + 1
+//@   on call ResponseHeader.SetContentEncodingBytes(_, enc):
+//@     nohavoc
+//@     requires[declares-what-it-did] compressed == 1
+//@     effect declared = true; declaredRight = sameSlice(enc, strBr)
+//@   on call ResponseHeader.addVaryBytes(_, v):
+//@     nohavoc
+//@     effect vary = vary || sameSlice(v, strAcceptEncoding)
+//@   end
+//@   ensures[at-most-once] compressed <= 1
+//@   ensures[encoding-declared-iff-compressed] declared == (compressed == 1) && (declared ==> declaredRight)
+//@   ensures[vary-when-compressed] compressed == 1 ==> vary
+
+//@ func Response.zstdBody
+//@   property C22
+//@   mode skeleton
+//@   ghost had int = -1
+//@   ghost compressed int = 0
+//@   ghost declared bool = false
+//@   ghost declaredRight bool = false
+//@   ghost vary bool = false
+//@   on call ResponseHeader.ContentEncoding -> e:
+//@     nohavoc
+//@     effect had = len(e)
+//@   on call ResponseHeader.isCompressibleContentType -> ok:
+//@     nohavoc
+//@   on call ResponseHeader.SetContentLength:
+//@     nohavoc
+//@   on call Response.bodyBytes -> b:
+//@     nohavoc
+//@   on call newCompressedBodyStream -> s:
+//@     nohavoc
+//@     requires[not-compressed-twice] had == 0
+//@     effect compressed = compressed + 1
+//@   on call AppendZstdBytesLevel -> out:
+//@     nohavoc
+//@     requires[not-compressed-twice] had == 0
+//@     effect compressed = compressed + 1
+//@   on call ResponseHeader.SetContentEncodingBytes(_, enc):
+//@     nohavoc
+//@     requires[declares-what-it-did] compressed == 1
+//@     effect declared = true; declaredRight = sameSlice(enc, strZstd)
+//@   on call ResponseHeader.addVaryBytes(_, v):
+//@     nohavoc
+//@     effect vary = vary || sameSlice(v, strAcceptEncoding)
+//@   end
+//@   ensures[at-most-once] compressed <= 1
+//@   ensures[encoding-declared-iff-compressed] declared == (compressed == 1) && (declared ==> declaredRight)
+//@   ensures[vary-when-compressed] compressed == 1 ==> vary
+
+// The wrappers: an encoding is applied only after the request was asked whether it accepts that encoding and said yes.
+//@ func CompressHandlerLevel$1
+//@   property C22
+//@   mode skeleton
+//@   ghost gz bool = false
+//@   ghost df bool = false
+//@   ghost zs bool = false
+//@   on call value:h:
+//@     effect gz = false
+//@   on call RequestHeader.HasAcceptEncodingBytes(_, t) -> ok:
+//@     nohavoc
+//@     effect gz = gz || (ok && sameSlice(t, strGzip)); df = df || (ok && sameSlice(t, strDeflate)); zs = zs || (ok && sameSlice(t, strZstd))
+//@   on call Response.gzipBody:
+//@     requires[accepted] gz
+//@   on call Response.deflateBody:
+//@     requires[accepted] df && !gz
+//@   on call Response.zstdBody:
+//@     requires[accepted] zs && !gz && !df
+//@   end
+
+//@ func CompressHandlerBrotliLevel$1
+//@   property C22
+//@   mode skeleton
+//@   ghost br bool = false
+//@   ghost gz bool = false
+//@   ghost df bool = false
+//@   ghost zs bool = false
+//@   on call value:h:
+//@     effect gz = false
+//@   on call RequestHeader.HasAcceptEncodingBytes(_, t) -> ok:
+//@     nohavoc
+//@     effect br = br || (ok && sameSlice(t, strBr)); gz = gz || (ok && sameSlice(t, strGzip)); df = df || (ok && sameSlice(t, strDeflate)); zs = zs || (ok && sameSlice(t, strZstd))
+//@   on call Response.brotliBody:
+//@     requires[accepted] br
+//@   on call Response.gzipBody:
+//@     requires[accepted] gz && !br
+//@   on call Response.deflateBody:
+//@     requires[accepted] df && !br && !gz
+//@   on call Response.zstdBody:
+//@     requires[accepted] zs && !br && !gz && !df
+//@   end
